@@ -3,79 +3,108 @@ import Fv.Lemmas.SyncWaitList
 /-!
 Basic inductive invariant of the `HybridMutex` model: mutual exclusion (ghost `holders` vs. the
 `LOCKED` bit), exclusion of the list spinlock, the wait-list invariant, node ownership (every
-queued node belongs to a live waiter), future bookkeeping.
+queued node belongs to a live waiter), future bookkeeping.  This file: definitions and proof
+macros; the preservation proofs are in `SyncMutexInv*.lean`.
+
+Region predicates are written without wildcard patterns so that their equation lemmas are
+unconditional rewrite rules (cheap for `simp`/`grind`).
 -/
 namespace Fv.Sync.Mutex
 open Fv.Sync
 
+def TaK.sync : TaK → Bool
+  | .lockFast | .lockSpin | .tryLock => true
+  | .asyncFirst | .pollTry => false
+
+def After.sync : After → Bool
+  | .retOk | .parkLoad => true
+  | .retReady | .dropLoad | .pending | .wake => false
+
+def After.async : After → Bool
+  | .retReady | .dropLoad | .pending => true
+  | .retOk | .parkLoad | .wake => false
+
 /-- the thread holds the list spinlock -/
 def inLL : Pc → Bool
   | .qRearm | .qFetchOr | .qLoad | .qCas | .ff _ | .llRel _ | .wnStore => true
-  | _ => false
+  | .idle | .taLoad _ | .taCas _ | .spinYield | .llSwap _ | .llLoad _ | .llSpin _ | .wLoad | .wPark
+  | .relAnd | .wnWake | .dLoad | .boPark | .ret _ => false
 
 /-- `lock_slow`, from its entry up to (not including) the unlink of the stack node
 (meaningful when `cur = none`) -/
 def slowL : Pc → Bool
-  | .taLoad .lockSpin | .taCas .lockSpin | .spinYield
-  | .llSwap .queue | .llLoad .queue | .llSpin .queue
-  | .llSwap .spinUnlink | .llLoad .spinUnlink | .llSpin .spinUnlink
-  | .qRearm | .qFetchOr | .qLoad | .qCas | .llRel .parkLoad | .wLoad | .wPark => true
-  | _ => false
+  | .taLoad k | .taCas k => (match k with
+      | .lockSpin => true | .lockFast | .tryLock | .asyncFirst | .pollTry => false)
+  | .llSwap k | .llLoad k | .llSpin k => (match k with
+      | .queue | .spinUnlink => true | .wakeNext | .finish | .drop => false)
+  | .llRel a => (match a with
+      | .parkLoad => true | .retOk | .retReady | .dropLoad | .pending | .wake => false)
+  | .spinYield | .qRearm | .qFetchOr | .qLoad | .qCas | .wLoad | .wPark => true
+  | .idle | .ff _ | .relAnd | .wnStore | .wnWake | .dLoad | .boPark | .ret _ => false
 
 /-- pcs that only occur on the sync path (`cur = none`) -/
 def syncOnly : Pc → Bool
-  | .taLoad .lockFast | .taCas .lockFast | .taLoad .lockSpin | .taCas .lockSpin
-  | .taLoad .tryLock | .taCas .tryLock | .spinYield
-  | .llSwap .spinUnlink | .llLoad .spinUnlink | .llSpin .spinUnlink
-  | .ff .retOk | .llRel .retOk | .llRel .parkLoad | .wLoad | .wPark => true
-  | _ => false
+  | .taLoad k | .taCas k => k.sync
+  | .llSwap k | .llLoad k | .llSpin k => (match k with
+      | .spinUnlink => true | .queue | .wakeNext | .finish | .drop => false)
+  | .ff a | .llRel a => a.sync
+  | .spinYield | .wLoad | .wPark => true
+  | .idle | .qRearm | .qFetchOr | .qLoad | .qCas | .relAnd | .wnStore | .wnWake | .dLoad | .boPark | .ret _ => false
 
 /-- pcs that only occur while polling / dropping a future (`cur = some f`) -/
 def asyncOnly : Pc → Bool
-  | .taLoad .asyncFirst | .taCas .asyncFirst | .taLoad .pollTry | .taCas .pollTry | .boPark
-  | .llSwap .finish | .llLoad .finish | .llSpin .finish
-  | .llSwap .drop | .llLoad .drop | .llSpin .drop
-  | .ff .retReady | .ff .dropLoad | .llRel .retReady | .llRel .dropLoad | .llRel .pending | .dLoad => true
-  | _ => false
+  | .taLoad k | .taCas k => !k.sync
+  | .llSwap k | .llLoad k | .llSpin k => (match k with
+      | .finish | .drop => true | .queue | .wakeNext | .spinUnlink => false)
+  | .ff a | .llRel a => a.async
+  | .dLoad | .boPark => true
+  | .idle | .spinYield | .qRearm | .qFetchOr | .qLoad | .qCas | .wLoad | .wPark | .relAnd | .wnStore | .wnWake
+  | .ret _ => false
 
 /-- pcs at which a thread with `cur = some f` is operating on future `f` -/
 def futPc : Pc → Bool
-  | .taLoad .asyncFirst | .taCas .asyncFirst | .taLoad .pollTry | .taCas .pollTry | .boPark
-  | .llSwap .finish | .llLoad .finish | .llSpin .finish
-  | .llSwap .drop | .llLoad .drop | .llSpin .drop
-  | .llSwap .queue | .llLoad .queue | .llSpin .queue
-  | .qRearm | .qFetchOr | .qLoad | .qCas
-  | .ff .retReady | .ff .dropLoad | .llRel .retReady | .llRel .dropLoad | .llRel .pending | .dLoad => true
-  | _ => false
+  | .taLoad k | .taCas k => !k.sync
+  | .llSwap k | .llLoad k | .llSpin k => (match k with
+      | .finish | .drop | .queue => true | .wakeNext | .spinUnlink => false)
+  | .ff a | .llRel a => a.async
+  | .qRearm | .qFetchOr | .qLoad | .qCas | .dLoad | .boPark => true
+  | .idle | .spinYield | .wLoad | .wPark | .relAnd | .wnStore | .wnWake | .ret _ => false
 
 /-- … and the future's node exists (`node` non-null) -/
 def futNodePc : Pc → Bool
-  | .llSwap .finish | .llLoad .finish | .llSpin .finish
-  | .llSwap .drop | .llLoad .drop | .llSpin .drop
-  | .llSwap .queue | .llLoad .queue | .llSpin .queue
-  | .qRearm | .qFetchOr | .qLoad | .qCas
-  | .ff .retReady | .ff .dropLoad | .llRel .retReady | .llRel .dropLoad | .llRel .pending | .dLoad => true
-  | _ => false
+  | .llSwap k | .llLoad k | .llSpin k => (match k with
+      | .finish | .drop | .queue => true | .wakeNext | .spinUnlink => false)
+  | .ff a | .llRel a => a.async
+  | .qRearm | .qFetchOr | .qLoad | .qCas | .dLoad => true
+  | .idle | .taLoad _ | .taCas _ | .spinYield | .wLoad | .wPark | .relAnd | .wnStore | .wnWake | .boPark
+  | .ret _ => false
 
 /-- … and the node has just been unlinked by this thread -/
 def futUnlPc : Pc → Bool
-  | .ff .retReady | .ff .dropLoad | .llRel .retReady | .llRel .dropLoad | .dLoad => true
-  | _ => false
+  | .ff a | .llRel a => (match a with
+      | .retReady | .dropLoad => true | .retOk | .parkLoad | .pending | .wake => false)
+  | .dLoad => true
+  | .idle | .taLoad _ | .taCas _ | .spinYield | .llSwap _ | .llLoad _ | .llSpin _ | .qRearm | .qFetchOr | .qLoad
+  | .qCas | .wLoad | .wPark | .relAnd | .wnStore | .wnWake | .boPark | .ret _ => false
+
+def isCas : Pc → Bool
+  | .taCas _ | .qCas => true
+  | .idle | .taLoad _ | .spinYield | .llSwap _ | .llLoad _ | .llSpin _ | .qRearm | .qFetchOr | .qLoad
+  | .ff _ | .llRel _ | .wLoad | .wPark | .relAnd | .wnStore | .wnWake | .dLoad | .boPark | .ret _ => false
 
 def PLockedHeld (s : State) : Prop := s.word.locked = true → ∃ u, s.holders = [(u, true)]
 def PFreeEmpty (s : State) : Prop := s.word.locked = false → s.holders = []
-def PSvFree (s : State) : Prop :=
-  ∀ t, ((∃ k, (s.th t).pc = .taCas k) ∨ (s.th t).pc = .qCas) → (s.th t).sv.locked = false
+def PSvFree (s : State) : Prop := ∀ t, isCas (s.th t).pc = true → (s.th t).sv.locked = false
 def PRelHolds (s : State) : Prop := ∀ t, (s.th t).pc = .relAnd → (t, true) ∈ s.holders
 def PLl (s : State) : Prop :=
   ∀ t, inLL (s.th t).pc = true → s.wl.locked = true ∧ ∀ u, inLL (s.th u).pc = true → u = t
 def PSyncCur (s : State) : Prop := ∀ t, syncOnly (s.th t).pc = true → (s.th t).cur = none
-def PAsyncCur (s : State) : Prop := ∀ t, asyncOnly (s.th t).pc = true → ∃ f, (s.th t).cur = some f
+def PAsyncCur (s : State) : Prop := ∀ t, asyncOnly (s.th t).pc = true → (s.th t).cur ≠ none
 def PSyncLinked (s : State) : Prop :=
   ∀ t, (s.th t).cur = none → slowL (s.th t).pc = true → (s.th t).linked = (s.wl.node (.thr t)).linked
 def PThrNode (s : State) : Prop :=
   ∀ t, (s.wl.node (.thr t)).linked = true → (s.th t).cur = none ∧ slowL (s.th t).pc = true
-def PFutNode (s : State) : Prop := ∀ f, (s.wl.node (.fut f)).linked = true → (s.fut f).phase = .started true
+def PFutNode (s : State) : Prop := ∀ f, (s.wl.node (.fut f)).linked = true → (s.fut f).phase = .startedNode
 def PBusy (s : State) : Prop :=
   ∀ t f, (s.th t).cur = some f → futPc (s.th t).pc = true →
     (s.fut f).busy = true ∧ ∀ u, (s.th u).cur = some f → futPc (s.th u).pc = true → u = t
@@ -85,9 +114,10 @@ def PPhFresh (s : State) : Prop :=
 def PPhStarted (s : State) : Prop :=
   ∀ t f, (s.th t).cur = some f →
     ((s.th t).pc = .taLoad .pollTry ∨ (s.th t).pc = .taCas .pollTry ∨ (s.th t).pc = .boPark) →
-    ∃ b, (s.fut f).phase = .started b
+    ((s.fut f).phase = .startedNoNode ∨ (s.fut f).phase = .startedNode)
 def PPhNode (s : State) : Prop :=
-  ∀ t f, (s.th t).cur = some f → futNodePc (s.th t).pc = true → (s.fut f).phase = .started true
+  ∀ t f, (s.th t).cur = some f → futNodePc (s.th t).pc = true → (s.fut f).phase = .startedNode
+def PFfOk (s : State) : Prop := ∀ t, (s.th t).pc ≠ .ff .parkLoad ∧ (s.th t).pc ≠ .ff .pending
 def PFutUnl (s : State) : Prop :=
   ∀ t f, (s.th t).cur = some f → futUnlPc (s.th t).pc = true → (s.wl.node (.fut f)).linked = false
 
@@ -108,80 +138,72 @@ structure Inv (s : State) : Prop where
   phStarted : PPhStarted s
   phNode : PPhNode s
   futUnl : PFutUnl s
+  ffOk : PFfOk s
 
-macro "step_cases " h:ident : tactic => `(tactic| (
-  cases $h:ident
+/-- case analysis of a step down to branch-free successor states -/
+macro "step_rest" : tactic => `(tactic| (
   all_goals (try simp only [taFail, taSucc, llEnter, afterRel, callStep, spinHead, pollHead, pollDone])
-  all_goals (repeat' split)))
+  all_goals (repeat' split)
+  all_goals (try clear ‹TaK›)
+  all_goals (try clear ‹LlK›)
+  all_goals (try clear ‹After›)
+  all_goals (try cases ‹TaK›)
+  all_goals (try cases ‹LlK›)
+  all_goals (try cases ‹After›)))
 
-variable {cfg : Cfg} {s s' : State} {t : Tid} {l : Lbl}
+macro "step_cases " h:ident : tactic => `(tactic| (cases $h:ident; step_rest))
 
+/-- the region predicates, for `grind` -/
+macro "inv_grind" : tactic => `(tactic| grind [isCas, inLL, slowL, syncOnly, asyncOnly, futPc, futNodePc, futUnlPc,
+  TaK.sync, After.sync, After.async])
 
-/-- unfold the facts of the invariant into the context -/
+/-- all facts of the invariant, unfolded, as hypotheses -/
 macro "inv_facts " hi:ident : tactic => `(tactic| (
   have hLockedHeld := ($hi).lockedHeld; have hFreeEmpty := ($hi).freeEmpty; have hSvFree := ($hi).svFree
   have hRelHolds := ($hi).relHolds; have hLl := ($hi).ll; have hSyncCur := ($hi).syncCur
   have hAsyncCur := ($hi).asyncCur; have hSyncLinked := ($hi).syncLinked; have hThrNode := ($hi).thrNode
   have hFutNode := ($hi).futNode; have hBusy := ($hi).busy; have hPhFresh := ($hi).phFresh
   have hPhStarted := ($hi).phStarted; have hPhNode := ($hi).phNode; have hFutUnl := ($hi).futUnl
+  have hWf := ($hi).wf; have hFfOk := ($hi).ffOk; unfold PFfOk at hFfOk
   unfold PLockedHeld at hLockedHeld; unfold PFreeEmpty at hFreeEmpty; unfold PSvFree at hSvFree
   unfold PRelHolds at hRelHolds; unfold PLl at hLl; unfold PSyncCur at hSyncCur; unfold PAsyncCur at hAsyncCur
   unfold PSyncLinked at hSyncLinked; unfold PThrNode at hThrNode; unfold PFutNode at hFutNode
   unfold PBusy at hBusy; unfold PPhFresh at hPhFresh; unfold PPhStarted at hPhStarted
-  unfold PPhNode at hPhNode; unfold PFutUnl at hFutUnl))
+  unfold PPhNode at hPhNode; unfold PFutUnl at hFutUnl
+  clear $hi))
 
-macro "fin_tac" : tactic => `(tactic| (
-  intros
-  (try simp [withPc, setTh, upd_apply, me, curF] at *) <;>
-    grind [inLL, slowL, syncOnly, asyncOnly, futPc, futNodePc, futUnlPc, me, curF]))
+/-- normalise the projections of an explicit successor state -/
+macro "norm_state" : tactic => `(tactic| (
+  simp only [withPc, setTh, upd_apply, me, curF, Option.getD, ↓reduceIte, if_true, if_false,
+    Thread.ite_pc, Thread.ite_sv, Thread.ite_linked, Thread.ite_i, Thread.ite_cur, Thread.ite_blockOn,
+    Thread.ite_tgt, Thread.ite_w, Fut.ite_phase, Fut.ite_busy,
+    Node.ite_woken, Node.ite_waiter, Node.ite_isWriter, Node.ite_linked,
+    WaitList.setLocked_locked, WaitList.setLocked_queue, WaitList.setLocked_writers, WaitList.setLocked_len,
+    WaitList.setLocked_node, WaitList.putNode_locked, WaitList.putNode_queue, WaitList.putNode_writers,
+    WaitList.putNode_len, WaitList.putNode_node, WaitList.setWaiter_locked, WaitList.setWaiter_queue,
+    WaitList.setWaiter_writers, WaitList.setWaiter_len, WaitList.setWaiter_node, WaitList.setWoken_locked,
+    WaitList.setWoken_queue, WaitList.setWoken_writers, WaitList.setWoken_len, WaitList.setWoken_node,
+    WaitList.takeAndMark_locked, WaitList.takeAndMark_queue, WaitList.takeAndMark_writers,
+    WaitList.takeAndMark_len, WaitList.takeAndMark_node, WaitList.linkBack_locked, WaitList.linkBack_queue,
+    WaitList.linkBack_len, WaitList.linkBack_node, WaitList.linkBack_writers, WaitList.unlink_locked,
+    WaitList.unlink_queue, WaitList.unlink_len, WaitList.unlink_writers, WaitList.unlink_node,
+    WaitList.wasLinked_eq, Node.fresh] at *))
 
-set_option maxHeartbeats 4000000 in
-theorem lockedHeld_step (hi : Inv s) (h : Step cfg s t l s') : PLockedHeld s' := by
-  have h1 := hi.lockedHeld; have h2 := hi.freeEmpty; have h3 := hi.svFree; have h4 := hi.relHolds
-  unfold PLockedHeld at h1; unfold PFreeEmpty at h2; unfold PSvFree at h3; unfold PRelHolds at h4
-  step_cases h
-  all_goals (unfold PLockedHeld; fin_tac)
-
-set_option maxHeartbeats 4000000 in
-theorem freeEmpty_step (hi : Inv s) (h : Step cfg s t l s') : PFreeEmpty s' := by
-  have h1 := hi.lockedHeld; have h2 := hi.freeEmpty; have h3 := hi.svFree; have h4 := hi.relHolds
-  unfold PLockedHeld at h1; unfold PFreeEmpty at h2; unfold PSvFree at h3; unfold PRelHolds at h4
-  step_cases h
-  all_goals (unfold PFreeEmpty; fin_tac)
-
-set_option maxHeartbeats 4000000 in
-theorem svFree_step (hi : Inv s) (h : Step cfg s t l s') : PSvFree s' := by
-  have h3 := hi.svFree
-  unfold PSvFree at h3
-  step_cases h
-  all_goals (unfold PSvFree; fin_tac)
-
-set_option maxHeartbeats 4000000 in
-theorem relHolds_step (hi : Inv s) (h : Step cfg s t l s') : PRelHolds s' := by
-  have h4 := hi.relHolds
-  unfold PRelHolds at h4
-  step_cases h
-  all_goals (unfold PRelHolds; fin_tac)
-
-set_option maxHeartbeats 4000000 in
-theorem ll_step (hi : Inv s) (h : Step cfg s t l s') : PLl s' := by
-  have hll := hi.ll
-  unfold PLl at hll
-  step_cases h
-  all_goals (unfold PLl; intro u hu; simp [withPc, setTh, upd_apply] at hu ⊢ <;> grind [inLL])
-
-set_option maxHeartbeats 4000000 in
-theorem syncCur_step (hi : Inv s) (h : Step cfg s t l s') : PSyncCur s' := by
-  have h1 := hi.syncCur; have h2 := hi.asyncCur
-  unfold PSyncCur at h1; unfold PAsyncCur at h2
-  step_cases h
-  all_goals (unfold PSyncCur; fin_tac)
-
-set_option maxHeartbeats 4000000 in
-theorem asyncCur_step (hi : Inv s) (h : Step cfg s t l s') : PAsyncCur s' := by
-  have h1 := hi.syncCur; have h2 := hi.asyncCur
-  unfold PSyncCur at h1; unfold PAsyncCur at h2
-  step_cases h
-  all_goals (unfold PAsyncCur; fin_tac)
+/-- same, goal only -/
+macro "norm_goal" : tactic => `(tactic| (
+  simp only [withPc, setTh, upd_apply, me, curF, Option.getD, ↓reduceIte, if_true, if_false,
+    Thread.ite_pc, Thread.ite_sv, Thread.ite_linked, Thread.ite_i, Thread.ite_cur, Thread.ite_blockOn,
+    Thread.ite_tgt, Thread.ite_w, Fut.ite_phase, Fut.ite_busy,
+    Node.ite_woken, Node.ite_waiter, Node.ite_isWriter, Node.ite_linked,
+    WaitList.setLocked_locked, WaitList.setLocked_queue, WaitList.setLocked_writers, WaitList.setLocked_len,
+    WaitList.setLocked_node, WaitList.putNode_locked, WaitList.putNode_queue, WaitList.putNode_writers,
+    WaitList.putNode_len, WaitList.putNode_node, WaitList.setWaiter_locked, WaitList.setWaiter_queue,
+    WaitList.setWaiter_writers, WaitList.setWaiter_len, WaitList.setWaiter_node, WaitList.setWoken_locked,
+    WaitList.setWoken_queue, WaitList.setWoken_writers, WaitList.setWoken_len, WaitList.setWoken_node,
+    WaitList.takeAndMark_locked, WaitList.takeAndMark_queue, WaitList.takeAndMark_writers,
+    WaitList.takeAndMark_len, WaitList.takeAndMark_node, WaitList.linkBack_locked, WaitList.linkBack_queue,
+    WaitList.linkBack_len, WaitList.linkBack_node, WaitList.linkBack_writers, WaitList.unlink_locked,
+    WaitList.unlink_queue, WaitList.unlink_len, WaitList.unlink_writers, WaitList.unlink_node,
+    WaitList.wasLinked_eq, Node.fresh]))
 
 end Fv.Sync.Mutex
